@@ -214,7 +214,9 @@ impl Prop for Totality {
             _ => 0.0,
         };
         // an unlimited budget with a threshold that the first iteration already meets
-        let (t, thresh) = if r.coin(0.03) { (u64::MAX, f64::INFINITY) } else { (t, thresh) };
+        // (only on games with a decision infoset: the step budget that turns a run-away loop into
+        // a verdict counts decision-node visits)
+        let (t, thresh) = if game.stats().n() >= 1 && r.coin(0.03) { (u64::MAX, f64::INFINITY) } else { (t, thresh) };
         let (k, cores) = match r.below(20) {
             0 => (0, Cores::Unknown),
             1 => (0, Cores::Count(*r.pick(&[1usize, 2, 16, 64]))),
